@@ -20,6 +20,7 @@ import (
 type feHook func(w *feWalker, st *feState, v ssa.Value) (constant.Value, bool)
 
 type feWalker struct {
+	inPhi map[*ssa.Phi]bool // re-entrancy guard of the phi-source fallback
 	Fn      *ssa.Function
 	Assume  map[ssa.Value]constant.Value
 	Hook    feHook // optional: decide calls and other opaque values
@@ -369,9 +370,11 @@ func (w *feWalker) walk(st *feState) {
 			// fork
 			other := st.clone()
 			other.free = append(other.free, condFact{t.Cond, false})
+			other.free = append(other.free, derivedFacts(other, t.Cond, false)...)
 			of := other.top()
 			of.prev, of.cur, of.idx = b, b.Succs[1], 0
 			st.free = append(st.free, condFact{t.Cond, true})
+			st.free = append(st.free, derivedFacts(st, t.Cond, true)...)
 			fr.prev, fr.cur = b, b.Succs[0]
 			w.walk(st)
 			w.walk(other)
@@ -383,6 +386,31 @@ func (w *feWalker) walk(st *feState) {
 			return
 		}
 	}
+}
+
+// derivedFacts: a branch taken on !x, or on a phi whose incoming value on this path is x, also
+// decides x.
+func derivedFacts(st *feState, cond ssa.Value, truth bool) []condFact {
+	var out []condFact
+	for d := 0; d < 6; d++ {
+		switch x := cond.(type) {
+		case *ssa.UnOp:
+			if x.Op != token.NOT {
+				return out
+			}
+			cond, truth = x.X, !truth
+		case *ssa.Phi:
+			src, ok := st.phiSrc[x]
+			if !ok || src == cond {
+				return out
+			}
+			cond = src
+		default:
+			return out
+		}
+		out = append(out, condFact{cond, truth})
+	}
+	return out
 }
 
 // cellOf resolves an address to the local cell it denotes: an Alloc, or a
@@ -558,8 +586,27 @@ func (w *feWalker) eval(st *feState, v ssa.Value) (constant.Value, bool) {
 		}
 		return x.Value, true
 	case *ssa.Phi:
-		c, ok := st.phis[x]
-		return c, ok
+		if c, ok := st.phis[x]; ok {
+			return c, ok
+		}
+		// not a constant when the block was entered: the incoming value may have been decided since
+		// (conditions only: `keep` merged from two calls and tested afterwards; loop-carried
+		// arithmetic refers back to the phi and is left alone)
+		if bt, isB := x.Type().Underlying().(*types.Basic); isB && bt.Kind() == types.Bool && !w.inPhi[x] {
+			if src, ok := st.phiSrc[x]; ok && src != v {
+				switch src.(type) {
+				case *ssa.Extract, *ssa.Call, *ssa.UnOp, *ssa.Parameter, *ssa.FreeVar:
+					if w.inPhi == nil {
+						w.inPhi = map[*ssa.Phi]bool{}
+					}
+					w.inPhi[x] = true
+					c, ok := w.eval(st, src)
+					delete(w.inPhi, x)
+					return c, ok
+				}
+			}
+		}
+		return nil, false
 	case *ssa.ChangeType:
 		return w.eval(st, x.X)
 	case *ssa.Convert:
